@@ -909,6 +909,39 @@ func run(c *mon.Ctx) {
 			drivePacket(b[:188], r)
 		}},
 	}
+	// ---- the very first calls in a fresh process come from several goroutines at once (anything that is built
+	// lazily on first use is built under contention): decoders are total whoever else is decoding. Every worker
+	// process runs this once, before anything else has warmed the library up.
+	c.StreamSeedless("cold-start-concurrent", 16, func(_ int, r *gen.Rand) {
+		curMut = "cold-start"
+		c.PersistInput("concurrent decoders in a fresh process", nil)
+		c.Concurrent("psi.NewPMT / scte35.NewSCTE35 / ebp / pes in a fresh process", 16, 64, r, func(q *gen.Rand) string {
+			pm := ref.PMT{Program: 1, CurrentNext: true, PCRPID: 0x100}
+			for k := 0; k < 8; k++ {
+				pm.Streams = append(pm.Streams, ref.ES{Type: q.Byte(), PID: 0x101 + k, Descs: []ref.Desc{{Tag: q.Byte(), Body: q.Bytes(q.Intn(8))}}})
+			}
+			if m, err := psi.NewPMT(append([]byte{0}, pm.Section()...)); err == nil && m != nil {
+				for _, es := range m.ElementaryStreams() {
+					_ = es.StreamTypeDescription()
+					_ = es.IsAudioContent()
+					for _, d := range es.Descriptors() {
+						_ = d.Format()
+					}
+				}
+				_ = fmt.Sprint(m)
+			}
+			sg := ref.GenSig(q, true)
+			if x, err := scte35.NewSCTE35(sg.Payload()); err == nil && x != nil {
+				_ = x.String()
+				x.UpdateData()
+			}
+			if x, err := ebp.ReadEncoderBoundaryPoint(seedEBP(q)); err == nil && x != nil {
+				_ = x.Data()
+			}
+			pes.NewPESHeader(seedPES(q))
+			return ""
+		})
+	})
 	// ---- random mutation
 	for _, f := range formats {
 		f := f
